@@ -14,7 +14,9 @@ ShardSets == {"0", "0_1", "0_1_2", "0_to_11", "1", "1_2", "0_2", "0_x", "0_neg1"
 Layouts == {"P", "PR", "PRR", "R", "PP", "Pdup"}          \* servers of every shard: roles; Pdup = same primary twice
 DefShards == {"shard_0", "shard_last", "shard_n", "random", "random_healthy", "junk"}
 DefRoles == {"any", "primary", "replica", "junk"}
-Creds == {"password", "trust", "none", "authquery"}      \* none = no password and no auth_query (md5 auth impossible)
+\* none = no password and no auth_query (md5 auth impossible); none_other_pool_authquery = the same, while ANOTHER pool has a
+\* complete auth_query; authquery_incomplete = auth_query_user and auth_query_password without the query itself
+Creds == {"password", "trust", "none", "authquery", "none_other_pool_authquery", "authquery_incomplete"}
 Regexes == {"none", "valid", "invalid"}
 Plugins == {"none", "with_parser", "without_parser"}
 PoolSizes == {1, 3}
@@ -41,7 +43,7 @@ Reasons(c) ==
   \cup (IF c.defshard \in {"shard_n", "junk"} THEN {"invalid_default_shard"} ELSE {})
   \cup (IF c.defshard = "shard_last" /\ ~Contiguous(c.shards) THEN {} ELSE {})
   \cup (IF c.defrole = "junk" THEN {"invalid_default_role"} ELSE {})
-  \cup (IF c.creds = "none" THEN {"missing_credentials"} ELSE {})
+  \cup (IF c.creds \in {"none", "none_other_pool_authquery", "authquery_incomplete"} THEN {"missing_credentials"} ELSE {})
   \cup (IF c.regex = "invalid" THEN {"invalid_regex"} ELSE {})
   \cup (IF c.plugins = "without_parser" THEN {"plugins_without_parser"} ELSE {})
 MustReject(c) == Reasons(c) # {}
